@@ -1,6 +1,7 @@
 /-
 C08 — the parser/compiler is total: the lexer → converter contract.
-PROPERTY THEOREMS ONLY (lemmas: Proofs/Lexer.lean; model: Martian/Lexer.lean).
+PROPERTY THEOREMS ONLY (lemmas: Proofs/Lexer*.lean, Proofs/Regex*.lean, Proofs/Tokenizer*.lean;
+models: Martian/Lexer*.lean, Martian/Regex.lean, Martian/Tokenizer.lean).
 
 What is proved for ALL byte strings: every token the lexer hands to a
 converter (`parseInt`, `parseFloat`, `unquoteBytes`) is converted without a
@@ -10,7 +11,19 @@ goyacc-generated parser and the compiler is NOT a theorem (a Lean model of that
 Go code is out of reach); it is covered by the search in harness/c08.go.
 -/
 import Martian.Lexer
+import Martian.Regex
 import Proofs.Lexer
+import Proofs.Regex
+import Proofs.LexerRegex
+import Proofs.LexerRegexString
+import Proofs.RegexOrder
+import Martian.LexerId
+import Proofs.LexerRegexId
+import Proofs.TokenizerSpace
+import Martian.LexerActions
+import Proofs.LexerActions
+import Martian.Tokenizer
+import Proofs.Tokenizer
 import Gen.Facts
 
 namespace Props.C08
@@ -22,37 +35,6 @@ typo — on the unrepaired tree this is the obligation that breaks, F3). -/
 theorem int_rule_src : Gen.tokIntRegex = intRuleSrc := by decide
 theorem float_rule_src : Gen.tokFloatRegex = floatRuleSrc := by decide
 theorem string_rule_src : Gen.tokStringRegex = stringRuleSrc := by decide
-
-/-- Lexer → converter contract for numerals: whatever the numeric branch of
-`keywordToken` returns as NUM_INT / NUM_FLOAT is accepted by `parseInt` /
-`parseFloat` (`none` = panic). -/
-theorem num_tok_converts (b t : Bytes) :
-    (numTok false b = .int t → (parseInt t).isSome = true) ∧
-    (numTok false b = .float t → (parseFloat false t).isSome = true) := by
-  unfold numTok
-  constructor
-  · intro h
-    split at h
-    · split at h <;> cases h
-    · split at h
-      · split at h
-        · rename_i hok; cases h; exact hok
-        · cases h
-      · cases h
-  · intro h
-    split at h
-    · split at h
-      · rename_i hok; cases h; exact hok
-      · cases h
-    · split at h
-      · split at h <;> cases h
-      · cases h
-
--- non-vacuity: both kinds of token are produced
-set_option exponentiation.threshold 1100 in
-example : numTok false [0x2D, 0x34, 0x32, 0x2C] = .int [0x2D, 0x34, 0x32] ∧
-    numTok false [0x31, 0x2E, 0x35, 0x65, 0x33, 0x5D] = .float [0x31, 0x2E, 0x35, 0x65, 0x33] := by
-  decide
 
 /-- On every token the integer rule admits (any number of leading zeros, then
 at most 19 digits) `parseInt` computes the exact value when it fits in an
@@ -129,12 +111,415 @@ example : srcAction [0x20, 0x61, 0x20, 0x62] = .ok ([0x61], [[0x62]]) ∧ srcAct
 theorem src_action_unchecked_panics : srcActionUnchecked [] = .panic ∧ srcActionUnchecked [0x20] = .panic := by
   decide
 
-/-- `nextToken` returns a non-empty text with every token other than INVALID,
+/-! ## The rules as REGULAR EXPRESSIONS: regex semantics, matcher, and the tie
+of the hand-written recognisers to the regex text found in tokenizer.go -/
+
+section regex
+open Martian.Regex hiding Bytes isWord
+open Martian.LexerRegex
+
+/-- The leftmost-first matcher is sound for every regex of the AST and every
+input: what it returns is a prefix of the input which the regex matches (in
+the denotational semantics `Matches`, anchors evaluated in context). -/
+theorem regex_matcher_sound (r : Re) (s w : Bytes) (h : pmatch r s = some w) :
+    ∃ post, s = w ++ post ∧ Matches r [] w post :=
+  pmatch_sound h
+
+/-- … and complete: it reports "no match" only when no prefix of the input
+matches (backtracking is exhaustive; the fuel of the star loop suffices;
+skipping empty iterations loses nothing). -/
+theorem regex_matcher_complete (r : Re) (s : Bytes) :
+    pmatch r s = none ↔ ¬ ∃ w post, s = w ++ post ∧ Matches r [] w post :=
+  pmatch_none_iff r s
+
+-- non-vacuity, and the leftmost-FIRST (not leftmost-longest) preference: `^(?:a|ab)` on "ab" is "a"
+example : (parse "^(?:a|ab)").map (fun r => pmatch r [0x61, 0x62]) = some (some [0x61]) ∧
+    (parse "^(?:ab|a)").map (fun r => pmatch r [0x61, 0x62]) = some (some [0x61, 0x62]) ∧
+    (parse "^a{2,3}\\b").map (fun r => pmatch r [0x61, 0x61, 0x61, 0x61]) = some none := by decide
+
+/-- Regenerated obligation: the regex SYNTAX parser, run on the integer rule's
+regex text as found in tokenizer.go now, yields the AST the proofs are about. -/
+theorem int_rule_parses : parse Gen.tokIntRegex = some intRe := by decide
+
+theorem float_rule_parses : parse Gen.tokFloatRegex = some floatRe := by decide
+
+/-- For EVERY input the hand-written integer recogniser returns exactly the
+prefix that the leftmost-first semantics of the parsed, regenerated regex of
+`tokIntRule` selects (`none` = no match).  A change of the regex in the Go
+source either changes `parse Gen.tokIntRegex` (this theorem breaks at
+`int_rule_parses`) or leaves the AST, hence the matched language, unchanged. -/
+theorem int_rule_is_regex (s : Bytes) :
+    (parse Gen.tokIntRegex).map (fun r => pmatch r s) = some (matchInt s) := by
+  rw [int_rule_parses]; exact congrArg some (pmatch_intRe s)
+
+/-- The same for the float rule (the repaired regex, `(?:` instead of `(:?`). -/
+theorem float_rule_is_regex (s : Bytes) :
+    (parse Gen.tokFloatRegex).map (fun r => pmatch r s) = some (matchFloat false s) := by
+  rw [float_rule_parses]; exact congrArg some (pmatch_floatRe s)
+
+example : (parse Gen.tokIntRegex).map (fun r => pmatch r [0x2D, 0x30, 0x37, 0x2C]) = some (some [0x2D, 0x30, 0x37]) ∧
+    (parse Gen.tokFloatRegex).map (fun r => pmatch r [0x31, 0x2E, 0x35, 0x65, 0x2D, 0x33, 0x5D])
+      = some (some [0x31, 0x2E, 0x35, 0x65, 0x2D, 0x33]) := by decide
+
+/-- Every text the float rule's regex admits is accepted by the syntax of
+`strconv.ParseFloat` (decimal literal: digits, optional fraction, optional
+exponent): the converter can refuse a NUM_FLOAT candidate only for being out
+of range — which `keywordToken` tests before it emits the token. -/
+theorem float_rule_admits_only_go_syntax (s t : Bytes)
+    (h : (parse Gen.tokFloatRegex).map (fun r => pmatch r s) = some (some t)) :
+    (goFloatSyntax t).isSome = true := by
+  rw [float_rule_is_regex] at h
+  injection h with h
+  exact matchFloat_goSyntax s t h
+
+/-- … and every text the integer rule's regex admits has the syntax of
+`strconv.ParseInt(…, 10, 64)` (optional sign, digits). -/
+theorem int_rule_admits_only_go_syntax (s t : Bytes)
+    (h : (parse Gen.tokIntRegex).map (fun r => pmatch r s) = some (some t)) :
+    goIntSyntax t = true := by
+  rw [int_rule_is_regex] at h
+  injection h with h
+  exact matchInt_goSyntax s t h
+
+example : goIntSyntax [0x2D, 0x30, 0x37] = true ∧ goIntSyntax [0x2D] = false ∧ goIntSyntax [0x31, 0x5F, 0x30] = false := by
+  decide
+
+theorem string_rule_parses : parse Gen.tokStringRegex = some stringRe := by decide
+
+/-- For EVERY input (invalid UTF-8 included: a negated class consumes one rune
+as `utf8.DecodeRune` delimits it) the hand-written string recogniser returns
+exactly the prefix that the leftmost-first semantics of the parsed, regenerated
+regex of `tokStringRule` selects. -/
+theorem string_rule_is_regex (s : Bytes) :
+    (parse Gen.tokStringRegex).map (fun r => pmatch r s) = some (matchString s) := by
+  rw [string_rule_parses]; exact congrArg some (pmatch_stringRe s)
+
+/-- (kept from the previous round; now a corollary of `string_rule_is_regex`) -/
+theorem string_rule_regex_sound_partial (s t : Bytes)
+    (h : (parse Gen.tokStringRegex).map (fun r => pmatch r s) = some (some t)) :
+    matchString s = some t := by
+  rw [string_rule_is_regex] at h
+  exact (Option.some.inj h)
+
+/-- Hence every LITSTRING token that Go's regexp can return for the rule's
+regex is unquoted without a panic (all escape forms, any bytes). -/
+theorem string_regex_tok_unquote_total (s t : Bytes)
+    (h : (parse Gen.tokStringRegex).map (fun r => pmatch r s) = some (some t)) :
+    ∃ out, unquoteBytes t = some out :=
+  matchString_unquote (string_rule_regex_sound_partial s t h)
+
+example : (parse Gen.tokStringRegex).map (fun r => pmatch r [0x22, 0x61, 0x5C, 0x6E, 0xC3, 0xA9, 0x22, 0x20])
+    = some (some [0x22, 0x61, 0x5C, 0x6E, 0xC3, 0xA9, 0x22]) := by decide
+
+theorem id_rule_parses : parse Gen.tokIdRegex = some idRe := by decide
+
+/-- The identifier rule: for every input the hand-written recogniser `matchId`
+(optional `_`, a letter, the maximal run of word characters) returns exactly
+the leftmost-first match of the parsed, regenerated regex of `tokIdRule`. -/
+theorem id_rule_is_regex (s : Bytes) :
+    (parse Gen.tokIdRegex).map (fun r => pmatch r s) = some (matchId s) := by
+  rw [id_rule_parses]; exact congrArg some (pmatch_idRe s)
+
+example : matchId [0x5F, 0x61, 0x31, 0x5F, 0x2E] = some [0x5F, 0x61, 0x31, 0x5F] ∧ matchId [0x5F, 0x31] = none ∧
+    matchId [0x61, 0xC3, 0xA9] = some [0x61] := by decide
+
+/-! ### leftmost-FIRST: the priority order of matches -/
+
+/-- `ends r [] s` enumerates the matches of prefixes of `s` best-first (first
+alternative before the second, more iterations of a greedy repetition before
+fewer — Go's leftmost-first / Perl order).  It contains exactly the matches of
+the denotational semantics … -/
+theorem regex_enumeration_exact (r : Re) (s p rest : Bytes) :
+    (p, rest) ∈ ends r [] s ↔ ∃ w, s = w ++ rest ∧ p = w.reverse ++ [] ∧ Matches r [] w rest :=
+  mem_ends_iff r [] s p rest
+
+/-- … and `pmatch` returns the FIRST of them, for every regex and input (and
+with any continuation the matcher returns the first element the continuation
+accepts: `Martian.Regex.m_eq_firstSome`). -/
+theorem regex_matcher_first (r : Re) (s : Bytes) :
+    pmatch r s = (ends r [] s).head?.map fun x => x.1.reverse :=
+  pmatch_first r s
+
+-- the order for `^(?:a|ab)(?:c|bcd)?` on "abcd": abcd, a, abc, ab (Perl order, not longest-first)
+example : (parse "^(?:a|ab)(?:c|bcd)?").map (fun r => (ends r [] [0x61, 0x62, 0x63, 0x64]).map fun x => x.1.reverse) =
+    some [[0x61, 0x62, 0x63, 0x64], [0x61], [0x61, 0x62, 0x63], [0x61, 0x62]] := by decide
+
+/-- For the three literal rules the enumeration has at most one element: the
+rule theorems above hold whatever the preference order is. -/
+theorem rule_match_unique (s : Bytes) :
+    (∀ x ∈ ends intRe [] s, ∀ y ∈ ends intRe [] s, x = y) ∧
+    (∀ x ∈ ends floatRe [] s, ∀ y ∈ ends floatRe [] s, x = y) ∧
+    (∀ x ∈ ends stringRe [] s, ∀ y ∈ ends stringRe [] s, x = y) :=
+  ⟨ends_unique intRe matchInt int_matches_iff s, ends_unique floatRe (matchFloat false) float_matches_iff s,
+   ends_unique stringRe matchString string_matches_iff s⟩
+
+end regex
+
+/-! ## The whole tokenizer: `nextToken` for all token kinds (interpreted from the
+regenerated first-byte switch of `keywordToken` and the regenerated token
+constants) and the `Lex` scanner loop -/
+
+section tokenizer
+open Martian.Tokenizer
+
+/-- Progress, full rule set, for ANY switch table / token-id table (so also for
+the ones found in the source now): the text `nextToken` returns is a prefix of
+the head, and it is non-empty unless the token is INVALID — every iteration
+of `Lex` consumes at least one byte or hands INVALID to the parser. -/
+theorem lexer_progress_full (T : Tables) (head : Martian.Lexer.Bytes) :
+    (nextTokenT T head).2 <+: head ∧
+    ((nextTokenT T head).1 = invalidId T ∨ 0 < (nextTokenT T head).2.length) :=
+  ⟨nextTokenT_prefix T head, nextTokenT_progress T head⟩
+
+/-- Termination of the scanner loop for the regenerated tables: it stops on its
+own (end of input or INVALID) within `length + 1` iterations — more fuel
+changes nothing. -/
+theorem lex_terminates (src : Martian.Lexer.Bytes) (f : Nat) (h : src.length + 1 ≤ f) :
+    lexRawFuel genTables f src startLoc = lexAllRaw src :=
+  lexAllRaw_fuel src f h
+
+/-- The texts of all tokens (skipped white space and comments included), in
+order, followed by the unconsumed rest, are the input; a rest remains only
+after an INVALID token. -/
+theorem lex_reconstructs (src : Martian.Lexer.Bytes) :
+    ((lexAllRaw src).1.map Tok.text).flatten ++ (lexAllRaw src).2 = src ∧
+    ((lexAllRaw src).2 ≠ [] → ∃ pre t, (lexAllRaw src).1 = pre ++ [t] ∧ t.id = invalidId genTables) :=
+  lexAllRaw_reconstructs src
+
+/-- What the reported line of a token is: 1 + the newlines in the white-space
+tokens, comments and other tokens (string literals) before it.  (Before the repair `da46d3b` of the line
+bookkeeping the newlines inside string literals were not counted: every error
+after a multi-line string literal pointed at too low a line.) -/
+theorem lex_line (src : Martian.Lexer.Bytes) (pre : List Tok) (t : Tok) (post : List Tok)
+    (h : (lexAllRaw src).1 = pre ++ t :: post) : t.line = 1 + (pre.map (lineAdvance genTables)).sum :=
+  lexAllRaw_line src pre t post h
+
+-- non-vacuity: `in x\n#\n$` is IN, ID, then INVALID on line 3
+example : (lexAll [0x69, 0x6E, 0x20, 0x78, 0x0A, 0x23, 0x0A, 0x24]).map (fun t => (t.id, t.line)) =
+    [(57354, 1), (57378, 1), (57348, 3)] := by decide
+
+/-- **The reported line is the real line**: the line of every token is 1 + the
+number of newline bytes in the source before it (`lex_reconstructs`: the texts
+of the tokens before it ARE the source up to it).  This holds since the two
+repairs of the line bookkeeping (newlines inside string literals; a comment
+advances the line by the newline it contains, not unconditionally). -/
+theorem lex_real_line (src : Martian.Lexer.Bytes) (pre : List Tok) (t : Tok) (post : List Tok)
+    (h : (lexAllRaw src).1 = pre ++ t :: post) : t.line = 1 + countNL (pre.map Tok.text).flatten :=
+  lexAllRaw_real_line src pre t post h
+
+/-- Witnesses of the line bookkeeping, replayed on the real scanner: in
+`"a⏎b" x` the identifier is reported on line 2, column 4 (before the first
+repair: line 1); in `#\xff` — a comment cut short by an invalid byte — the
+INVALID token is reported on line 1, column 2 (before the second repair: line 2
+of a one-line file). -/
+theorem line_count_quirks :
+    (lexAll [0x22, 0x61, 0x0A, 0x62, 0x22, 0x20, 0x78]).map (fun t => (t.line, t.col)) = [(1, 1), (2, 4)] ∧
+    (lexAll [0x23, 0xFF]).map (fun t => (t.id, t.line, t.col)) = [(57348, 1, 2)] := by decide
+
+/-- The identifier rule of the tokenizer model (which runs the generic matcher
+on the parsed regenerated regex) is the hand-written recogniser. -/
+theorem tokenizer_id_rule (b : Martian.Lexer.Bytes) :
+    (idRule genTables b).1 = ((Martian.Lexer.matchId b).getD []) := by
+  have h := Props.C08.id_rule_is_regex b
+  simp only [idRule, genTables]
+  cases hp : Martian.Regex.parse Gen.tokIdRegex with
+  | none => rw [hp] at h; cases h
+  | some re =>
+    rw [hp] at h
+    simp only [Option.map_some, Option.some.injEq] at h
+    show (match Martian.Regex.pmatch re b with
+      | some t => (t, lookupId Gen.tokIds "ID")
+      | none => ([], lookupId Gen.tokIds "ID")).fst = _
+    rw [h]
+    cases Martian.Lexer.matchId b <;> rfl
+
+/-- The white-space set of `leadingSpace` is the one of the sources: its ASCII
+fast path is the case list found in tokenizer.go now, and for runes ≥ 0x80 it
+is `unicode.IsSpace`, i.e. membership in the `White_Space` range table found in
+the toolchain's unicode/tables.go now (lo, hi, stride). -/
+theorem leading_space_set (c : UInt8) (r : Nat) (h : 0x80 ≤ r) :
+    isAsciiSpace c = Gen.tokSpaceAscii.contains c.toNat ∧
+    isUniSpace r = inStride Gen.unicodeWhiteSpace r :=
+  ⟨asciiSpace_eq_source c, uniSpace_eq_table r h⟩
+
+example : isUniSpace 0x2003 = true ∧ isUniSpace 0x200B = false ∧ isUniSpace 0xFEFF = false := by decide
+
+end tokenizer
+
+/-! ## The next layer: the grammar ACTIONS that convert token texts
+(`float_32`, resource values, `val_exp`, every `unquote` site, `src`, the
+`arr_list` dimension counter) as total functions on tokens -/
+
+section actions
+open Martian.LexerActions
+
+/-- Every action site, fed with a token text that ONE `nextToken` call of the
+tokenizer model can emit with the kind it needs (NUM_INT, NUM_FLOAT or
+LITSTRING), yields a value or a located error — never a panic.  (Hypothesis:
+one `nextToken` call on some head; `lexer_progress_full`/`lex_reconstructs`
+say that the scanner loop hands the parser exactly such tokens.) -/
+theorem actions_total (s : Site) (k : Kind) (head t : Martian.Lexer.Bytes) (h : emits k head t) :
+    act s k t ≠ .panic :=
+  Martian.LexerActions.actions_total s k head t h
+
+/-- … and an accepted kind is refused (located error) only for a float outside
+the 32-bit range at a resource/float_32 site, or at the `src` site (blank
+command). -/
+theorem actions_error_only (s : Site) (k : Kind) (head t : Martian.Lexer.Bytes) (h : emits k head t)
+    (ha : s.accepts k = true) (he : act s k t = .error) :
+    (k = .numFloat ∧ (s = .float32 ∨ s = .threads ∨ s = .memGb ∨ s = .vmemGb) ∧ parseFloat true t = none) ∨
+    (s = .src ∧ k = .litString) :=
+  Martian.LexerActions.actions_error_only s k head t h ha he
+
+/-- An emitted NUM_INT in a value expression becomes exactly its value, which
+fits in an int64. -/
+theorem val_int_exact (head t : Martian.Lexer.Bytes) (h : emits .numInt head t) :
+    valAction .numInt t = .ok (.int (intTokVal t)) ∧ inInt64 (intTokVal t) = true :=
+  valAction_int_exact h
+
+set_option exponentiation.threshold 1100 in
+example : emits .numFloat [0x31, 0x65, 0x33, 0x39, 0x2C] [0x31, 0x65, 0x33, 0x39] := by unfold emits; decide
+
+/-- The `int16` dimension counter of `arr_list` cannot wrap: k pairs of `[]`
+give k (< 2^15) or a located error. -/
+theorem arr_list_total (k : Nat) :
+    (∃ n : Int, arrList k = .ok n ∧ 0 ≤ n ∧ n < 2 ^ 15 ∧ n = k) ∨ (arrList k = .error ∧ 32767 < k) :=
+  arrList_total k
+
+/-- Negative witnesses, replayed on the real code by the harness: without its
+guard the counter wraps to −32768; `1e39` is a NUM_FLOAT on which a direct
+float32 conversion would panic while the action reports an error; and the
+actions do panic on texts the tokenizer does not emit. -/
+theorem arr_list_unguarded_wraps : arrListUnguarded 32768 = .ok (-32768) ∧ arrStepUnguarded 32767 = .ok (-32768) ∧
+    arrStep 32767 = .error :=
+  arrListUnguarded_wraps
+
+theorem float32_unchecked_panics :
+    numTok false [0x31, 0x65, 0x33, 0x39] = .float [0x31, 0x65, 0x33, 0x39] ∧
+    float32FloatUnchecked [0x31, 0x65, 0x33, 0x39] = .panic ∧
+    float32Float [0x31, 0x65, 0x33, 0x39] = .error :=
+  Martian.LexerActions.float32_unchecked_panics
+
+/-- Recorded (not a totality defect; the action accepts and mis-stores):
+`MapDim: 1 + $4` in `type_id` has no guard, 32767 inner array dimensions of a
+map type wrap it to −32768. -/
+theorem map_dim_wraps : mapDim 32767 = -32768 ∧ (∀ n : Int, 0 ≤ n → n < 32767 → mapDim n = n + 1) :=
+  mapDim_wraps
+
+end actions
+
+/-! ## The lexer → converter contract through the INTERPRETED tokenizer -/
+
+section contract
+open Martian.LexerActions Martian.Tokenizer
+
+/-- Whatever ONE call of `nextToken` (all clauses of the regenerated switch
+interpreted, not only the numeric one) returns with the id of NUM_FLOAT /
+NUM_INT / LITSTRING is accepted by the converter the grammar applies to that
+kind: no other clause of `Gen.tokSwitch` can produce these ids, the numeric
+clause emits them only after the range check, and the string rule's texts are
+all unquotable. -/
+theorem tokenizer_converter_contract (head t : Martian.Lexer.Bytes) :
+    (nextToken head = (lookupId Gen.tokIds "NUM_FLOAT", t) → ∃ l, parseFloat false t = some l) ∧
+    (nextToken head = (lookupId Gen.tokIds "NUM_INT", t) → ∃ i, parseInt t = some i) ∧
+    (nextToken head = (lookupId Gen.tokIds "LITSTRING", t) → ∃ out, unquoteBytes t = some out) :=
+  ⟨fun h => emitted_float_parses (head := head) h, fun h => emitted_int_parses (head := head) h,
+   fun h => emitted_string_unquotes (head := head) h⟩
+
+/-- … and such a token is the leftmost-first match of the rule's regenerated
+regex at the head. -/
+theorem tokenizer_num_token_is_regex_match (head t : Martian.Lexer.Bytes) :
+    (nextToken head = (lookupId Gen.tokIds "NUM_FLOAT", t) →
+      (Martian.Regex.parse Gen.tokFloatRegex).map (fun r => Martian.Regex.pmatch r head) = some (some t)) ∧
+    (nextToken head = (lookupId Gen.tokIds "LITSTRING", t) →
+      (Martian.Regex.parse Gen.tokStringRegex).map (fun r => Martian.Regex.pmatch r head) = some (some t)) := by
+  constructor
+  · intro h
+    have h1 := emits_float (head := head) (t := t) h
+    rw [float_rule_is_regex]
+    unfold numTok at h1
+    split at h1
+    · rename_i tt hm
+      split at h1 <;> cases h1
+      rw [hm]
+    · split at h1
+      · split at h1 <;> cases h1
+      · cases h1
+  · intro h
+    rw [string_rule_is_regex, emits_string (head := head) (t := t) h]
+
+end contract
+
+/-! ## Recogniser ⇔ DENOTATIONAL semantics (independent of the executable matcher) -/
+
+section denotational
+open Martian.Regex hiding Bytes isWord
+open Martian.LexerRegex
+
+/-- The hand-written recognisers decide the denotational semantics of the rule
+regexes: `w` followed by `post` matches the regex (anchors evaluated in that
+context) iff the recogniser, run on `w ++ post`, returns `w`.  (Hence a rule's
+match is unique: `rule_match_unique`.) -/
+theorem rules_decide_semantics (w post : Bytes) :
+    (Matches intRe [] w post ↔ matchInt (w ++ post) = some w) ∧
+    (Matches floatRe [] w post ↔ matchFloat false (w ++ post) = some w) ∧
+    (Matches stringRe [] w post ↔ matchString (w ++ post) = some w) ∧
+    (Matches idRe [] w post ↔ matchId (w ++ post) = some w) :=
+  ⟨int_matches_iff w post, float_matches_iff w post, string_matches_iff w post, id_matches_iff w post⟩
+
+end denotational
+
+/-- The regenerated facts these theorems are stated against were really found
+in the sources (a fact whose pattern is no longer found is emitted from its
+committed default with `_extracted := false`: this obligation then breaks
+instead of the theorems silently talking about the default). -/
+theorem facts_extracted :
+    Gen.tokIntRegex_extracted = true ∧ Gen.tokFloatRegex_extracted = true ∧ Gen.tokStringRegex_extracted = true ∧
+    Gen.tokIdRegex_extracted = true ∧ Gen.tokSwitch_extracted = true ∧ Gen.tokIds_extracted = true ∧
+    Gen.tokSpaceAscii_extracted = true ∧ Gen.unicodeWhiteSpace_extracted = true := by decide
+
+/-! ### definitional unfoldings (documentation of the model, not guarantees) -/
+
+/-- (By construction of `numTok`: the `if` of its definition read backwards; the
+guarantee is `tokenizer_converter_contract`.)  Whatever the numeric branch of
+`keywordToken` returns as NUM_INT / NUM_FLOAT is accepted by `parseInt` /
+`parseFloat` (`none` = panic). -/
+theorem num_tok_converts (b t : Bytes) :
+    (numTok false b = .int t → (parseInt t).isSome = true) ∧
+    (numTok false b = .float t → (parseFloat false t).isSome = true) := by
+  unfold numTok
+  constructor
+  · intro h
+    split at h
+    · split at h <;> cases h
+    · split at h
+      · split at h
+        · rename_i hok; cases h; exact hok
+        · cases h
+      · cases h
+  · intro h
+    split at h
+    · split at h
+      · rename_i hok; cases h; exact hok
+      · cases h
+    · split at h
+      · split at h <;> cases h
+      · cases h
+
+-- non-vacuity: both kinds of token are produced
+set_option exponentiation.threshold 1100 in
+example : numTok false [0x2D, 0x34, 0x32, 0x2C] = .int [0x2D, 0x34, 0x32] ∧
+    numTok false [0x31, 0x2E, 0x35, 0x65, 0x33, 0x5D] = .float [0x31, 0x2E, 0x35, 0x65, 0x33] := by
+  decide
+
+/-- (Old generic model, superseded by `lexer_progress_full` / `lex_terminates`.)
+`nextToken` returns a non-empty text with every token other than INVALID,
 whatever the rule functions are; hence the `Lex` loop, which only continues
 after a SKIP/COMMENT token, terminates within `length + 1` iterations. -/
 theorem lexer_progress (R : Rules) (isSkip : Nat → Bool) (hskip : isSkip INVALID = false) (s : Bytes) :
     ((nextToken R s).1 ≠ INVALID → 0 < (nextToken R s).2.length) ∧
     ∃ r, lex R isSkip (s.length + 1) s = some r :=
   ⟨nextToken_progress R s, lex_total R isSkip hskip _ s (by omega)⟩
+
 
 end Props.C08
